@@ -75,6 +75,8 @@ def build_population(spec, date, params):
     elif v == "swap_households":
         hh = sorted(df["hh_id"].unique().tolist())
         df = popgen.relabel(df, None, dict(zip(hh, hh[::-1])))
+    if date.year < 2015:  # amounts of branches that are not implemented for those years come as data
+        df = popgen.historical_supplement(df, date)
     return df
 
 
@@ -236,7 +238,7 @@ def run_history(history):
                     targets = list(DEFAULT_TARGETS)
                 elif call["targets"] == "feasible":  # before 2015: the computable part of the default targets (+ a few inner nodes)
                     targets = env.feasible_targets(f, list(df.columns), data=df, params=copy.deepcopy(p),
-                                                   candidates=[*DEFAULT_TARGETS, "arbeitsl_geld_2_eink_anr_frei_m", "zu_verst_eink_y_sn", "wohngeld_m_hh"])
+                                                   candidates=env.HIST_CANDIDATES)
                 else:
                     targets = list(call["targets"])
                 # snapshots of caller-owned arguments
